@@ -36,6 +36,8 @@ def all_keys():
         for name in USERFUNCS:
             if name == "scaled" and tname != "xla_client":
                 continue  # needs a context with a default constant type
+            if name.startswith("prov") and tname not in ("python", "cpp"):
+                continue  # targets without a native square: the implementation comes from the context paths
             keys.append(f"{tname}|user:{name}|{'|'}".replace("||", "|" + ",".join(USER_SIG[tname] for _ in range(USERFUNCS[name][1])) + "|"))
     return sorted(keys)
 
@@ -59,7 +61,36 @@ def _uf_selects(ctx, x, y):
     return ctx.select(ctx.logical_or(c, ctx.logical_or(x == y, y < 0.5)), ctx.select(c, x, y), ctx.sqrt(abs(x)) + ctx.exp(y))
 
 
-USERFUNCS = {"scaled": (_uf_scaled, 1), "named": (_uf_named, 2), "literals": (_uf_literals, 2), "selects": (_uf_selects, 2)}
+def _uf_named_cmp(ctx, x, y):
+    # eq / ne between a named constant and a number: keys that do not order, the canonical operand order has to come from somewhere seed-independent
+    a = ctx.select(ctx.constant("eps", x) == ctx.constant(2.220446049250313e-16, x), x, -x)
+    b = ctx.select(ctx.constant("pi", y) != ctx.constant(3.5, y), y, x)
+    c = ctx.select(ctx.constant(2.5, x) == ctx.constant("largest", x), a, b)
+    d = ctx.select(ctx.constant("smallest", x) != ctx.constant(7, x), c, a)
+    return a + b + c + d
+
+
+def _uf_prov(edition):
+    """two provider objects that carry the same __name__ (a class defined again in a session, a reloaded module) and implement `square` differently"""
+    if edition == 1:
+        class Impl:
+            @staticmethod
+            def square(ctx, x):
+                return x * x
+    else:
+        class Impl:
+            @staticmethod
+            def square(ctx, x):
+                return ctx.exp(ctx.log(abs(x)) * 2)
+    return Impl
+
+
+def _uf_prov_fn(ctx, x):
+    return ctx.square(x) + 1
+
+
+USERFUNCS = {"scaled": (_uf_scaled, 1), "named": (_uf_named, 2), "literals": (_uf_literals, 2), "selects": (_uf_selects, 2), "named_cmp": (_uf_named_cmp, 2),
+             "prov1": (_uf_prov_fn, 1), "prov2": (_uf_prov_fn, 1)}
 USER_SIG = {"python": ":float", "numpy": ":float32", "stablehlo": ":float", "xla_client": ":float", "cpp": ":float32"}
 
 
@@ -89,6 +120,8 @@ def generate(key, ctx=None):
             return g.tostring(target, tab="")
         sig = tuple(sig.split(",")) if sig else ()
         alt = tname == "xla_client"
+        if ctx is None and fname.startswith("user:prov"):
+            ctx = fa.Context(paths=[_uf_prov(int(fname[-1]))])
         if ctx is None:
             ctx = fa.Context(paths=[fa.algorithms], enable_alt=alt, default_constant_type="FloatType" if alt else None)
         func = USERFUNCS[fname.split(":")[1]][0] if fname.startswith("user:") else getattr(fa.algorithms, fname)
